@@ -79,6 +79,13 @@ CLAIMS["C16"] = dict(
     technique="interprocedural write-set exclusion + parameter-use classification + exception-escape analysis",
     design="DESIGN.md section 4, C16")
 
+CLAIMS["C07"] = dict(
+    text="Sibling agreement of the tables and ladders the compiler output depends on: GetOpCode rows vs enumerators (every name, aliases "
+         "included), GetOpName, consensus opcode bytes; the push-size ladder of writer / minimality judge / reader; the small-integer "
+         "ladder of push_int64 / CheckMinimalPush / interpreter decode. Tokenisation and literal classification are value-level and not decided.",
+    technique="table and threshold-ladder extraction from the resolved AST, sibling agreement",
+    design="DESIGN.md section 4, C07")
+
 NOT_YET = "check not built yet in this round (see DESIGN.md section 7 build order)"
 
 NA = {
